@@ -294,7 +294,7 @@ def jobs(tier, seed):
     from vf.runner import long_jobs
     js += long_jobs()
     from vf.runner import interrupt_jobs
-    js += interrupt_jobs(len(INTERRUPT_X))
+    js += [dict(j, warm=(j["idx"] == 0 or tier == "thorough")) for j in interrupt_jobs(len(INTERRUPT_X))]     # (the interrupted derivation costs 0.5 s per probe: warm second pass in the thorough tier only)
     from vf.runner import concur_jobs
     js += concur_jobs(len(CONCUR_SCEN) - (3 if tier == "quick" else 0), weight=30)      # (real-curve derivations: thorough only)
     from vf import smallcurve
